@@ -668,6 +668,8 @@ def miri_args(cfg, mode="concurrent"):
     a = ["--mode", mode, "--threads", str(cfg["threads"]), "--hseed", str(cfg["hseed"]), "--ops", str(cfg["ops"])]
     if cfg.get("long"):
         a += ["--long", str(cfg["long"])]
+    if cfg.get("bulk"):
+        a += ["--bulk", str(cfg["bulk"])]
     if cfg.get("churn"):
         a += ["--churn", str(cfg["churn"])]
     if cfg.get("barrier") and mode == "concurrent":
@@ -690,6 +692,15 @@ def miri_run(cfg):
         # Miri's deadlock detection cannot see) is a finding, not a harness error
         return -999, "", "SIM-HANG: the program did not finish under Miri within %d s" % MIRI_RUN_TIMEOUT
     return rc, so, se
+
+
+def parse_prints(out):
+    prints = {}
+    for line in out.splitlines():
+        parts = line.split()
+        if len(parts) >= 2 and parts[0].startswith("T") and parts[0][1:].isdigit() and parts[1] == "PRINT":
+            prints[int(parts[0][1:])] = parts[2:]
+    return prints
 
 
 def parse_threads(out):
@@ -715,15 +726,19 @@ class SeqRef:
     def __init__(self, binary):
         self.binary = binary
         self.cache = {}
+        self.prints = {}
+        self.last_prints = {}  # PRINT lines of the most recent native() call
 
     def native(self, cfg, mode, extra=()):
-        key = (cfg["threads"], cfg["hseed"], cfg["ops"], cfg.get("long", 0), cfg.get("churn", 0), mode, tuple(extra))
+        key = (cfg["threads"], cfg["hseed"], cfg["ops"], cfg.get("long", 0), cfg.get("bulk", 0), cfg.get("churn", 0), mode, tuple(extra))
         if key not in self.cache:
             c = dict(cfg, stamped=False)
             rc, so, se = run([self.binary] + miri_args(c, mode) + list(extra), timeout=300)
             if rc != 0:
                 raise HarnessError("native reference run failed (%s): %s" % (mode, se[-500:]))
             self.cache[key] = parse_threads(so)
+            self.prints[key] = parse_prints(so)
+        self.last_prints = self.prints.get(key, {})
         return self.cache[key]
 
     def reproducible(self, cfg):
@@ -831,6 +846,20 @@ def c17_matrix(seed, count, deep=False):
     # happens only every N draws (batched statistics, periodic re-seeding, block reservations)
     # is executed at all; bare creations keep the Miri cost at a few seconds per run
     longs = [(2, 1100), (2, 1100), (3, 600), (2, 300)] if not deep else [(2, 1100)] * 6 + [(3, 1100)] * 4 + [(2, 4200)] * 4 + [(4, 600)] * 2
+    # bulk runs (thorough only: formatting under Miri costs about 20 ms per dumped node): treaps of
+    # 60 elements dumped through the library's Debug / TreePrinter paths by all threads at once
+    for j in range(0 if not deep else 6):
+        cfgs.append({
+            "miri_seed": rng.below(1 << 31),
+            "rate": ["0.1", "0.3", "0.03"][j % 3],
+            "threads": 2 + j % 2,
+            "hseed": rng.below(1 << 40),
+            "ops": 3,
+            "bulk": 60,
+            "stamped": False,
+            "main_participates": j % 2 == 1,
+            "barrier": True,
+        })
     for j, (threads, n) in enumerate(longs):
         cfgs.append({
             "miri_seed": rng.below(1 << 31),
@@ -862,7 +891,7 @@ def c17_matrix(seed, count, deep=False):
             "barrier": True,
             "stagger": 0,
         })
-    cfgs.sort(key=lambda c: -c.get("long", 0))  # stable: the slow long runs start first
+    cfgs.sort(key=lambda c: -(c.get("long", 0) + 4 * c.get("bulk", 0)))  # stable: the slow runs start first
     return cfgs
 
 
@@ -890,6 +919,12 @@ def c17_judge(cfg, rc, so, se, ref, check_stream):
         ok, how = ref.producible(cfg, prio)
         if not ok:
             return ("treapconc/stream/", "no sequential execution produces the observed per-thread priority streams: " + how)
+        # the sequential execution that explains the priorities builds the same trees, so the
+        # library's Debug / TreePrinter dumps taken during the concurrent run must equal its dumps
+        want, got = ref.last_prints, parse_prints(so)
+        for tid in sorted(got):
+            if tid in want and got[tid] != want[tid]:
+                return ("treapconc/dump/", "thread %d's Debug/TreePrinter dump of its own treap differs from the dump in the sequential execution that explains the priorities (%s): %s vs %s" % (tid, how, got[tid], want[tid]))
     return None
 
 
@@ -1009,7 +1044,7 @@ def check_c17(tier, seed):
         "exhaustive": False,
         "rule": (
             "A run = one execution of the multi-threaded program sim/mirisched under Miri with (-Zmiri-seed, -Zmiri-preemption-rate in {0.01,0.1,0.3,0.6} (weighted towards 0.3 and 0.6), 2-3 threads, "
-            "optionally the main thread as participant, per-thread history of 5-14 (thorough: up to 24, with up to 6 threads) node creations / treap operations on thread-owned treaps whose item types (node layouts) differ between threads; plus a few long runs with 300-2100 (thorough: up to 4200) bare node creations per thread, plus first-draw storms: 3-8 threads released by a start barrier doing 1-2 creations each at pre-emption rates 0.01-0.1). One Miri seed = one exactly repeatable schedule. "
+            "optionally the main thread as participant, per-thread history of 5-14 (thorough: up to 24, with up to 6 threads) node creations / treap operations on thread-owned treaps whose item types (node layouts) differ between threads; plus a few long runs with 300-2100 (thorough: up to 4200) bare node creations per thread, (thorough only: a few bulk runs whose 60-element treaps are dumped through Debug/TreePrinter by all threads at once), plus first-draw storms: 3-8 threads released by a start barrier doing 1-2 creations each at pre-emption rates 0.01-0.1). One Miri seed = one exactly repeatable schedule. "
             "distinct_nontrivial = number of distinct global node-creation orders (sequence of thread ids sorted by a Relaxed stamp) with at least 2 thread switches, among the stamped half of the runs."
         ),
         "miri_executions": len(cfgs),
